@@ -192,6 +192,10 @@ impl FrequencySketch {
         self.table.to_vec()
     }
 
+    pub(crate) fn verif_table_len(&self) -> usize {
+        self.table.len()
+    }
+
     pub(crate) fn verif_clone(&self) -> Self {
         Self {
             sample_size: self.sample_size,
